@@ -691,7 +691,8 @@ CaseResult run_case(const Case &c, volatile uint64_t *progress) {
     }
     res.nontrivial = rr.st.mutating_ok >= 1;
     if (prop == "C15") { res.nontrivial = rr.st.hard_fired >= 1; res.evaluations = rr.st.saves; }
-    if (prop == "C01" || prop == "C04" || prop == "C17") res.nontrivial = res.nontrivial && rr.st.reloads >= 1;
+    if (prop == "C01" || prop == "C17") res.nontrivial = res.nontrivial && rr.st.reloads >= 1;
+    if (prop == "C04") res.nontrivial = rr.st.reloads >= 1; // a pure load -> save -> restart lineage makes no mutating call
     res.sample = c.config;
     disk_clear_prefix(disk_root() + "/a0/");
     return res;
